@@ -27,6 +27,21 @@ class IterState(object):
         return isinstance(o, IterState) and (o.items, o.pos) == (self.items, self.pos)
 
 
+OPAQUE_NAMES = set()
+
+
+def _opaque_call(cfg, nd, funcs):
+    """a call, in this node, of a helper whose body was not expanded here and for which the caller gave no oracle"""
+    if not OPAQUE_NAMES:
+        return None
+    for x in cfg.walk_exprs(nd):
+        if isinstance(x, ast.Call):
+            r, m = A.call_target(x)
+            if m in OPAQUE_NAMES and not (funcs and (m in funcs or ((r + '.' + m) if r else m) in funcs)):
+                return x
+    return None
+
+
 def explore(cfg, env0, funcs=None, on_node=None, max_states=20000, start=None, unknown='both', on_unknown=None, pinned=(),
             concrete_exceptions=False, on_exception=None):
     """Explore all abstract states reachable from entry with environment `env0` (dict path -> constant).
@@ -44,6 +59,9 @@ def explore(cfg, env0, funcs=None, on_node=None, max_states=20000, start=None, u
         visited.add(nid)
         if on_node is not None:
             on_node(nd, env)
+        if on_unknown is not None and nd.ast is not None and _opaque_call(cfg, nd, funcs) is not None:
+            # closed evaluation: the effect of this helper on the state is not known here
+            raise NotClosedTest('the call %s of a helper that was not expanded in place' % ast.unparse(_opaque_call(cfg, nd, funcs))[:60])
         succs = []
         if nd.kind == 'test':
             val = _decide(nd.ast, env, funcs)
@@ -157,8 +175,8 @@ def explore(cfg, env0, funcs=None, on_node=None, max_states=20000, start=None, u
             if nd.kind == 'stmt' and isinstance(nd.stmt, ast.For) and a is nd.stmt.iter:
                 # entering a for loop: remember the iterable if it is closed (the loop head then iterates it)
                 try:
-                    items = A.ev(a, env, funcs)
-                    if isinstance(items, (range, list)):
+                    items = A.model_seq(A.ev(a, env, funcs))
+                    if isinstance(items, (range, list)) or isinstance(items, A.FrozenDict):
                         items = tuple(items)
                     if isinstance(items, (tuple, str)) and len(items) <= 200:
                         heads = [s_ for s_, _l in nd.succ if s_.kind == 'for']
@@ -205,6 +223,17 @@ def explore(cfg, env0, funcs=None, on_node=None, max_states=20000, start=None, u
                         env2[p] = tuple(lst)
                     except (A.NotClosed, TypeError, IndexError, ValueError):
                         env2.pop(p, None)
+                elif p and isinstance(a.targets[0].value, ast.Attribute) and not isinstance(ix, ast.Slice):
+                    # del obj.field[i] where obj is a model object of the rule: the model's own field is cut
+                    try:
+                        owner = A.ev(a.targets[0].value.value, env, funcs)
+                        if getattr(owner, '_sa_model', False):
+                            cur_ = getattr(owner, a.targets[0].value.attr)
+                            lst = list(cur_)
+                            del lst[A.ev(ix, env, funcs)]
+                            setattr(owner, a.targets[0].value.attr, tuple(lst) if isinstance(cur_, tuple) else lst)
+                    except (A.NotClosed, TypeError, IndexError, ValueError, AttributeError):
+                        pass
             if nd.kind == 'stmt' and isinstance(a, ast.Assign) and len(a.targets) == 1 and isinstance(a.targets[0], ast.Subscript):
                 # P[i] = v  /  P[a:b] = seq   on a closed tuple value
                 p = path_of(a.targets[0].value)
@@ -235,6 +264,31 @@ def explore(cfg, env0, funcs=None, on_node=None, max_states=20000, start=None, u
                         env2[p] = tuple(lst)
                         hash(env2[p])
                     except (A.NotClosed, TypeError, IndexError, ValueError):
+                        env2.pop(p, None)
+            # a closed table (FrozenDict value):  D[k] = v  /  D[k] op= v  /  del D[k]
+            tgt_ = None
+            if nd.kind == 'stmt' and isinstance(a, (ast.Assign, ast.AugAssign)):
+                t0 = a.targets[0] if isinstance(a, ast.Assign) and len(a.targets) == 1 else (a.target if isinstance(a, ast.AugAssign) else None)
+                if isinstance(t0, ast.Subscript):
+                    tgt_ = t0
+            elif nd.kind == 'stmt' and isinstance(a, ast.Delete) and len(a.targets) == 1 and isinstance(a.targets[0], ast.Subscript):
+                tgt_ = a.targets[0]
+            if tgt_ is not None:
+                p = path_of(tgt_.value)
+                if p and isinstance(env.get(p), A.FrozenDict) and p not in pinned:
+                    try:
+                        d_ = dict(env[p])
+                        k_ = A.ev(tgt_.slice, env, funcs)
+                        hash(k_)
+                        if isinstance(a, ast.Delete):
+                            del d_[k_]
+                        elif isinstance(a, ast.Assign):
+                            d_[k_] = A.ev(a.value, env, funcs)
+                        else:
+                            d_[k_] = A._BIN[type(a.op)](d_[k_], A.ev(a.value, env, funcs))
+                        env2[p] = A.FrozenDict(d_)
+                        hash(env2[p])
+                    except (A.NotClosed, TypeError, AttributeError, IndexError, KeyError, ValueError):
                         env2.pop(p, None)
             if nd.kind == 'stmt' and isinstance(a, ast.AugAssign):
                 p = path_of(a.target)
@@ -402,6 +456,12 @@ def run_function(cfg, fn, args, funcs=None, env=None):
                 except _PY_EXC:
                     return      # the exception edge is taken (explore, concrete_exceptions)
                 outs.append(tuple(v) if isinstance(v, list) else v)
+        if nd.kind == 'raise' and not any(s_.kind == 'handler' for s_, _l in nd.succ):
+            # an explicit raise that no handler of the function catches is an outcome of the call
+            x_ = nd.ast.exc if isinstance(nd.ast, ast.Raise) else getattr(nd.stmt, 'exc', None)
+            if isinstance(x_, ast.Call):
+                x_ = x_.func
+            outs.append(('raises', (path_of(x_) or '?').split('.')[-1] if x_ is not None else '?'))
         if nd is cfg.exit and not any(l != 'exc' for p in cfg.nodes for s_, l in p.succ if s_ is nd and p.kind == 'return'):
             pass
 
@@ -425,7 +485,47 @@ def run_function(cfg, fn, args, funcs=None, env=None):
     return vals[0]
 
 
-def helper_oracles(ctx, modname, funcs=None):
+def run_generator(cfg, fn, args, funcs=None, env=None):
+    """the tuple of values a generator function yields for the closed arguments `args`, by constant propagation (the run
+    must be determined by the arguments: one path)"""
+    params = [a.arg for a in fn.args.args]
+    env0 = dict(env or {})
+    for p_, v in zip(params, args):
+        env0[p_] = tuple(v) if isinstance(v, list) else v
+    env0['@yields'] = ()
+    outs = []
+
+    def on_node(nd, e):
+        ys = e.get('@yields', ())
+        for x in cfg.walk_exprs(nd):
+            if isinstance(x, ast.Yield):
+                v = A.ev(x.value, e, funcs) if x.value is not None else None
+                hash(v)
+                ys = ys + (v,)
+            elif isinstance(x, ast.YieldFrom):
+                v = A.model_seq(A.ev(x.value, e, funcs))
+                ys = ys + tuple(v)
+        e['@yields'] = ys
+        if nd is cfg.exit:
+            outs.append(ys)
+
+    def unk(nd, e):
+        raise NotClosedTest(ast.unparse(nd.ast) if nd.ast is not None else '?')
+    explore(cfg, env0, funcs=funcs, on_node=on_node, on_unknown=unk)
+    vals = []
+    for o in outs:
+        if o not in vals:
+            vals.append(o)
+    if len(vals) != 1:
+        raise A.NotClosed('%s: %d outcomes' % (fn.name, len(vals)))
+    return vals[0]
+
+
+def _is_generator(f):
+    return any(isinstance(x, (ast.Yield, ast.YieldFrom)) for x in ast.walk(f))
+
+
+def helper_oracles(ctx, modname, funcs=None, all_methods_of=None):
     """funcs for ev/explore in which every module-level function of `modname` that is not in the reference list (a helper
     a refactoring introduced) is answered by constant propagation through its own body"""
     from . import normalize as NZ
@@ -435,21 +535,26 @@ def helper_oracles(ctx, modname, funcs=None):
     for st in m.tree.body:
         if isinstance(st, ast.FunctionDef) and st.name not in base and st.name not in out:
             def call(*args, _f=st):
+                if _is_generator(_f):
+                    return run_generator(ctx.cfg(_f), _f, list(args), out)
                 return run_function(ctx.cfg(_f), _f, list(args), out)
             out[st.name] = call
         elif isinstance(st, ast.ClassDef):
             # methods a refactoring added: answered through `self.<name>` / `Class.<name>`; an instance method reads
             # the fields of the caller's environment (same object)
             for f in st.body:
-                if not isinstance(f, ast.FunctionDef) or (st.name + '.' + f.name) in base:
+                if not isinstance(f, ast.FunctionDef) or ((st.name + '.' + f.name) in base and st.name != all_methods_of):
+                    continue
+                if f.name.startswith('__') and f.name.endswith('__'):
                     continue
                 static = any(isinstance(d, ast.Name) and d.id == 'staticmethod' for d in f.decorator_list)
 
                 def mcall(env, *args, _f=f, _static=static):
+                    run = run_generator if _is_generator(_f) else run_function
                     if _static:
-                        return run_function(ctx.cfg(_f), _f, list(args), out)
+                        return run(ctx.cfg(_f), _f, list(args), out)
                     e2 = {k: v for k, v in env.items() if k.startswith('self.') or k == 'self'}
-                    return run_function(ctx.cfg(_f), _f, [env.get('self')] + list(args), out, env=e2)
+                    return run(ctx.cfg(_f), _f, [env.get('self')] + list(args), out, env=e2)
                 mcall._wants_env = True
                 mcall._static = static
                 for key in ('self.' + f.name, st.name + '.' + f.name):
